@@ -70,6 +70,23 @@ def module_of(e):
     return site(e).rsplit(".", 1)[0]
 
 
+def derived(base):
+    """hostile values that keep the shape (length, alphabet, prefix) of a valid one: one character replaced, appended or
+    prepended; a value built only from a foreign alphabet of the same length; numerals and URLs that parse oddly"""
+    out = []
+    if not isinstance(base, str) or not base:
+        return out
+    for ch in ("\u00e9", "\u0661", "\uff41", "\"", "\\", "\x00", "\n", " ", "%", "\u212a", "\u00df"):
+        out += [base[:-1] + ch, ch + base[1:], base + ch, base[:len(base) // 2] + ch + base[len(base) // 2 + 1:]]
+    out += ["\u00e9" * len(base), "\u0661" * len(base), base.upper(), base.lower(), base + base, base[:-1], base * 40]
+    if base.isdigit():
+        out += ["9" * 400, "9" * 4400, "-" + base, "+" + base, " " + base, base + ".0", "1e5", "0x10", "\u0661\u0662", "1_0", "nan", "inf"]
+    if "://" in base:
+        out += ["https://[x", "https://[::1", "https://x:99999999/cb", "https://x:abc/cb", "https://\u00e9.example/cb", "https:///cb", "https://@/", "//x", "https://x.example/cb#f",
+                "https://x.example/%zz", "https://x.example\\@evil/", "javascript:alert(1)", "https://[v1.x]/", "https://x\x00.example/"]
+    return out
+
+
 def desc_ok(d):
     return all(0x20 <= ord(c) <= 0x21 or 0x23 <= ord(c) <= 0x5B or 0x5D <= ord(c) <= 0x7E for c in d)
 
@@ -334,7 +351,8 @@ JWT_BASES = {
                                                 "auth_time": NOW, "acr": "0", "amr": ["pwd"], "at_hash": "x", "c_hash": "y"}),
     "at7523": ({"alg": "HS256"}, {"iss": "https://as.example", "sub": "alice", "exp": NOW + 3000, "iat": NOW, "client_id": "c1", "grant_type": "password", "scope": "a"}),
 }
-RETYPED = [["\"\u00e9\\\r\n"], None, 5, -1, 10 ** 30, 1.5, True, "s", "", "\"\\", "\u00e9", [], [1], ["a", 1], {}, {"a": 1}, "9" * 400]
+RETYPED_CORE = [None, 5, True, 1.5, "s", "", [], ["a", 1], [{"a": 1}], [["x"]], {}, {"a": 1}]          # one value of every JSON shape: always used
+RETYPED = RETYPED_CORE + [["\"\u00e9\\\r\n"], -1, 10 ** 30, "\"\\", "\u00e9", [1], "9" * 400, {"a": {"b": []}}, [None]]
 
 
 def jwt_variants(rng, name, quick):
@@ -347,7 +365,7 @@ def jwt_variants(rng, name, quick):
                 o2 = dict(obj)
                 del o2[m]
                 yield "%s-removed:%s" % (part, m), mk_jwt(o2 if part == "header" else header, claims if part == "header" else o2)
-            for v in (RETYPED if not quick else rng.sample(RETYPED, 6)):
+            for v in (RETYPED if not quick else RETYPED_CORE + rng.sample(RETYPED[len(RETYPED_CORE):], 2)):
                 o2 = dict(obj)
                 o2[m] = v
                 yield "%s-retyped:%s" % (part, m), mk_jwt(o2 if part == "header" else header, claims if part == "header" else o2)
@@ -500,6 +518,11 @@ def run_endpoints(ctx):
                 else:
                     p[name] = h
                 variants.append(("param:%s" % name, p, dict(headers), None, None, None))
+            dv = derived(params.get(name) if not isinstance(params.get(name), list) else params[name][0])
+            for h in (dv if not quick else dv[:4] + rng.sample(dv[4:51], min(6, max(0, len(dv[4:51])))) + dv[51:]):
+                p = dict(params)
+                p[name] = [h] if isinstance(params.get(name), list) else h
+                variants.append(("derived:%s" % name, p, dict(headers), None, None, None))
             p = dict(params)
             p.pop(name, None)
             variants.append(("missing:%s" % name, p, dict(headers), None, None, None))
@@ -1053,6 +1076,14 @@ def run_oauth1(ctx):
                     n += 1
                     p["oauth_nonce"] = p.get("oauth_nonce", "n") + str(n) if k != "oauth_nonce" else h
                     variants.append(("param:" + k, p, None))
+            for k, v0 in base:
+                dv = derived(v0)
+                for h in (dv if not quick else dv[:4] + rng.sample(dv[4:51], min(4, max(0, len(dv[4:51])))) + dv[51:]):
+                    n += 1
+                    p = dict(base + [("oauth_token", "t"), ("oauth_verifier", "v")])
+                    p["oauth_nonce"] = "d%d" % n
+                    p[k] = h
+                    variants.append(("derived:" + k, p, None))
             for meth in ("HMAC-SHA1", "RSA-SHA1", "PLAINTEXT"):
                 for sig in ["", "A", "AA==", "!!!", "\u00e9", "%", "a b", "x" * 5000, "=" * 7, "s1-secret&"]:
                     n += 1
